@@ -31,6 +31,7 @@ is shared with the model (`Model/Prim.lean`).
 -/
 import ZygoVerif.Model.CoreSexp
 import ZygoVerif.Model.Prim
+import ZygoVerif.Model.LazySrc
 namespace ZygoVerif.Ref
 open ZygoVerif.Core
 
@@ -50,6 +51,7 @@ structure Thunk where
   e : Expr
   env : Nat
   value : Option Val
+  isValue : Bool := false      -- made by `apply`/`map` from a value: its source is that value
 deriving Repr, Inhabited
 
 structure St where
@@ -328,6 +330,16 @@ def applyFn : Nat → Val → List Val → St → R Val
          | [.lazy id] => force fuel id s
          | [v] => .ok v s
          | _ => .err s)
+      else if name = "substitute" then
+        -- the source expression of a thunk, as data, without evaluating it
+        (match args with
+         | [.lazy id] => (match s.thunks[id]? with
+           | none => .err s
+           | some th =>
+             if th.isValue then .ok (th.value.getD .nil) s
+             else let (v, h) := quoteE th.e s.heap; .ok v { s with heap := h })
+         | [v] => .ok v s
+         | _ => .err s)
       else if name = "apply" then
         (match args with
          | [f, coll] =>
@@ -367,7 +379,7 @@ def applyValues : Nat → Val → List Val → St → R Val
        | some c =>
          let wrap : St × List Val × Nat → Val → St × List Val × Nat := fun (s, acc, i) v =>
            if i < c.ps.length && isLazyParam (c.ps.getD i "") then
-             ({ s with thunks := s.thunks ++ [{ e := .nilLit, env := 0, value := some v }] },
+             ({ s with thunks := s.thunks ++ [{ e := .nilLit, env := 0, value := some v, isValue := true }] },
               acc ++ [.lazy s.thunks.length], i + 1)
            else (s, acc ++ [v], i + 1)
          let (s, xs, _) := xs.foldl wrap (s, [], 0)
